@@ -214,6 +214,9 @@ func (m *vMachine) genLiqOp(rt *rapid.T, i int) (vOp, bool) {
 		kinds = append(kinds, "bid", "bid", "bid", "bid", "bid", "block", "block", "lbdep", "lbdep", "block")
 	}
 	k := rapid.SampledFrom(kinds).Draw(rt, lbl("liqkind"))
+	if len(m.c.App.NewaucKeeper.GetAuctions(m.c.Ctx)) > 0 && rapid.IntRange(0, 4).Draw(rt, lbl("limitnow")) == 0 {
+		k = "lbdep"
+	}
 	op := vOp{K: k, U: rapid.IntRange(0, cfg.NUsers-1).Draw(rt, lbl("user"))}
 	c := m.c
 	switch k {
@@ -298,6 +301,15 @@ func (m *vMachine) genLiqOp(rt *rapid.T, i int) (vOp, bool) {
 					cur = 30
 				}
 				op.Asset = int(cur)
+				// or the discount it will post in the next block, which is then generated with that time step
+				d := int64(cfg.Liq.Duration)
+				dt := rapid.SampledFrom([]int64{0, 5, 6, 30, 600, d / 10, d / 3, d / 2, d * 4 / 5}).Draw(rt, lbl("reldt"))
+				if tw, ok := c.App.MarketKeeper.GetTwa(c.Ctx, a.CollateralAssetId); ok && dt > 0 {
+					if pm, ok := premiumAfter(a, c.Ctx.BlockTime(), dt, tw.Twa, cfg.Liq.Duration, sdk.MustNewDecFromStr(cfg.Liq.Discount)); ok {
+						op.Asset = int(pm)
+						m.forced = append(m.forced, vOp{K: "block", Dt: dt})
+					}
+				}
 			}
 		case "lbwd":
 			p := m.product(op.P)
